@@ -1,7 +1,7 @@
 """C11 — determinant-list trials mean what they say; an exact trial gives zero variance.
 
 Lean: byte-format round trip (all sizes), `parity` = sign of the permutation sorting the in-place
-replaced reference string (exhaustive to 5 orbitals), eigenvector => constant local energy => constant
+replaced reference string (every size, every reference), eigenvector => constant local energy => constant
 block energy.  Tie: parity / hole-particle extraction and read_dets vs the Lean model (exact);
 multislater overlap / force bias / energy vs the explicit sum_i c_i |D_i> for random order, reference
 and cut-off; exact eigenvectors (own diagonalisation and pyscf FCI) => local energies and sampler block
